@@ -30,7 +30,10 @@ RULE = ('every command taking a mailbox argument (CREATE DELETE RENAME(both) SEL
 
 NAMES = gen.HOSTILE_NAMES + ['..', '../bob', '../bob/x', '../../etc', 'a/../../bob', 'a/../..', './x', 'x/.', 'x/..', '/etc/passwd', '//', 'a/b/../../../bob',
                              '..\\bob', '.bob', '..bob', 'a/./../b', '\x00', 'a\x00/../bob', '../pymap-etc-passwd', 'a/' * 30 + 'b', '.' * 3, 'INBOX/..', 'INBOX/../../bob',
-                             'inbox/../x', 'INBOX/', 'inbox/', 'INBOX//', 'INBOX/.', '/INBOX', 'INBOX\x00', 'a/INBOX/', '~', '~root', '$HOME', 'a\\..\\b', '..%2f', '%2e%2e/x']
+                             'inbox/../x', 'INBOX/', 'inbox/', 'INBOX//', 'INBOX/.', '/INBOX', 'INBOX\x00', 'a/INBOX/', '~', '~root', '$HOME', 'a\\..\\b', '..%2f', '%2e%2e/x',
+                             # characters that some Unicode normalisation (NFKC, NFKD) or case folding turns into a dot or a separator *after* the name was validated
+                             '\u2025/bob', '\u2025', '\u2024', '\u2024\u2024/bob', '\uff0e\uff0e/bob', '\uff0e\uff0e\uff0fbob', 'x\uff0f\u2025\uff0f\u2025\uff0fbob', '\u2025/bob/x', '\uff0e', 'a/\u2025/\u2025/bob',
+                             '\u2215\u2215etc', '\u2044bob', '\ufe52\ufe52/bob', '\u3002\u3002/bob', 'INBOX\uff0f\u2025', '\u2025\u2215bob']
 MUTATING = {'rename', 'replace', 'remove', 'unlink', 'rmdir', 'mkdir', 'makedirs', 'removedirs', 'rmtree', 'link', 'symlink', 'utime', 'chmod', 'truncate', 'open-w', 'move', 'copy'}
 
 
@@ -300,7 +303,7 @@ def worker(job):
 
 
 def gen_names(r, n):
-    comps = ['', '.', '..', 'a', 'bob', '..', 'x\x00', 'INBOX', 'pymap-etc-passwd', '.hidden', 'é', '...', 'a.b', '~', '*', '%']
+    comps = ['', '.', '..', 'a', 'bob', '..', 'x\x00', 'INBOX', 'pymap-etc-passwd', '.hidden', 'é', '...', 'a.b', '~', '*', '%', '\u2025', '\uff0e\uff0e', '\u2024', 'x\uff0fbob']
     out = []
     for _ in range(n):
         out.append('/'.join(r.choice(comps) for _ in range(r.randint(1, 5))))
